@@ -19,9 +19,9 @@ import (
 type c15Op struct {
 	Op    string `json:"op"` // set | get | dirty | clean
 	Key   int    `json:"k"`
-	Dirty bool   `json:"d,omitempty"` // set: the page is already dirty when it is inserted
-	Fresh bool   `json:"f,omitempty"` // set: a new page object even if the key is resident
-	N     int    `json:"n,omitempty"` // set: repeat for N consecutive keys (large capacities)
+	Dirty bool   `json:"d,omitempty"`   // set: the page is already dirty when it is inserted
+	Fresh bool   `json:"f,omitempty"`   // set: a new page object even if the key is resident
+	N     int    `json:"n,omitempty"`   // set: repeat for N consecutive keys (large capacities)
 	LSN   int    `json:"lsn,omitempty"` // set dirty / dirty: offset added to the log sequence number of the transition
 }
 
